@@ -175,6 +175,7 @@ pub fn responder(addr: u8, r: &mut Rng, tsdr_cap: u16) -> SlaveCfg {
         ext_diag: vec![],
         sc_for_empty: true,
         honour_watchdog: false,
+        fdl_status_code: if r.chance(1, 4) { *r.pick(&[1u8, 2, 3, 8, 9, 10, 12, 13]) } else { 0 },
     }
 }
 
@@ -476,8 +477,12 @@ fn byz_shape(r: &mut Rng, master: u8) -> ByzShape {
             ByzShape::Garbage(r.bytes(n))
         }
         17 => {
-            let n = r.range(1, 4) as usize;
-            ByzShape::Trailing(r.bytes(n))
+            if r.chance(1, 2) {
+                ByzShape::Truncated(r.range(1, 12) as u8)
+            } else {
+                let n = r.range(1, 4) as usize;
+                ByzShape::Trailing(r.bytes(n))
+            }
         }
         _ => {
             // extended diagnostics of every block type incl. malformed headers
@@ -595,6 +600,7 @@ pub fn dp_world(r: &mut Rng, tier: Tier, o: &DpOpts) -> (WorldCfg, OracleCfg, Ve
             },
             sc_for_empty: r.chance(1, 2),
             honour_watchdog: r.chance(1, 2),
+            fdl_status_code: 0,
         };
         if o.mismatch && r.chance(1, 6) {
             match r.below(4) {
@@ -839,7 +845,9 @@ pub fn ring_faults(r: &mut Rng, w: &mut WorldCfg, o: &mut OracleCfg, tier: Tier)
             _ => Trigger::At(t),
         };
         let delay_us = if r.chance(1, 2) { 0 } else { r.range(0, 3 * tslot_us) };
-        let kind = match r.below(10) {
+        let kind = match r.below(12) {
+            10 => FaultKind::Deaf { station: st, us: r.range(1, 150) * tslot_us },
+            11 => FaultKind::Mute { station: st, us: r.range(1, 150) * tslot_us },
             0 | 1 => FaultKind::Crash { station: st, restart_after_us: None },
             2 | 3 => FaultKind::Crash { station: st, restart_after_us: Some(r.range(0, 40 * tslot_us)) },
             4 | 5 => FaultKind::Stall { station: st, us: r.range(1, 40) * tslot_us },
@@ -1003,6 +1011,7 @@ pub fn adv_world(r: &mut Rng, tier: Tier, o: &AdvOpts) -> (WorldCfg, OracleCfg, 
                                 },
                                 sc_for_empty: r.chance(1, 2),
                                 honour_watchdog: r.chance(1, 2),
+                                fdl_status_code: 0,
                             });
                         }
                     }
@@ -1214,7 +1223,8 @@ pub fn rx_scenario(r: &mut Rng, tier: Tier, decoder: bool) -> crate::rx::RxCfg {
             }
             5 if decoder => {
                 // structured header with random body: 68 LE LEr 68 ...
-                let le = r.range(0, 30) as u8;
+                // incl. both ends of the legal range 4..=249 and the 8-bit end (LE + 6 > 255)
+                let le = if r.chance(1, 3) { *r.pick(&[0u8, 1, 2, 3, 4, 5, 11, 243, 244, 245, 246, 247, 248, 249, 250, 251, 252, 253, 254, 255]) } else { r.range(0, 30) as u8 };
                 let ler = if r.chance(3, 4) { le } else { r.byte() };
                 let mut b = vec![0x68, le, ler, if r.chance(3, 4) { 0x68 } else { r.byte() }];
                 b.extend(r.bytes(usize::from(le) + 2));
@@ -1470,6 +1480,7 @@ pub fn generate(check: &str, tier: Tier, base_seed: u64, k: u64) -> Scenario {
             oracle: OracleCfg::default(),
             expect: None,
             rx: Some(rx),
+            build: None,
         };
     }
     let (world, oracle, faults) = match check {
@@ -1718,6 +1729,22 @@ pub fn generate(check: &str, tier: Tier, base_seed: u64, k: u64) -> Scenario {
             let (w, o) = ring_world(&mut r, tier, &o);
             // peers that answer late, with foreign addresses, with requests, tokens or not at all
             let mut f = Vec::new();
+            if check == "C13" && !w.slaves.is_empty() {
+                // peers that time out in the middle of their answer (an incomplete telegram stays
+                // in the buffers), do not answer at all, or answer with something else
+                for _ in 0..r.range(0, 6) {
+                    let sl = r.below(w.slaves.len() as u64) as usize;
+                    let shape = match r.below(3) {
+                        0 => ByzShape::Silent,
+                        _ => ByzShape::Truncated(r.range(1, 12) as u8),
+                    };
+                    f.push(Fault {
+                        trig: Trigger::NthTx { n: r.range(0, 400) as u32, class: TxClass::Request },
+                        kind: FaultKind::SlaveByz { slave: sl, shape, count: r.range(1, 2) as u8 },
+                        delay_us: 0,
+                    });
+                }
+            }
             if check == "C15" && !w.slaves.is_empty() {
                 for _ in 0..r.range(0, 12) {
                     let sl = r.below(w.slaves.len() as u64) as usize;
@@ -1760,5 +1787,6 @@ pub fn generate(check: &str, tier: Tier, base_seed: u64, k: u64) -> Scenario {
         oracle,
         expect: None,
         rx: None,
+        build: None,
     }
 }
